@@ -391,6 +391,15 @@ def check_sides(sidelog, F, prefix, out, extra_hyps=(), final_values=None):
             kind = "range"
         if kind == "bincount-range":
             continue
+        if kind == "intwidth":
+            key = (kind, what, loc.split(":")[0])
+            if key not in seen:
+                seen.add(key)
+                n += 1
+                out.append(Clause("%s.width@%s" % (prefix, loc), "refuted", "dtype",
+                                  "%s: for integer input narrower than 64 bit the result wraps around (e.g. uint8 200*200 = 64)" % why,
+                                  witness={"dtype_hazard": what, "at": loc}))
+            continue
         key = (kind, _fresh_re.sub("#", repr(what)), loc.split(":")[0])
         if key in seen:
             continue
